@@ -13,7 +13,7 @@ use std::rc::Rc;
 pub const DEF: PropDef = PropDef {
     id: "C19",
     level: "exploration",
-    rule: "(1) every program of the reference grammar's canonical corpus (all statement kinds in three contexts, operator chains, lists, calls), the hand-written corpus, and all degenerate-poetic / stray-control programs of C09, every constant-assignment form x target x right-hand side of C18, operator chains / lists / argument lists / subscript chains of 2..100 operands in 5 repeat patterns; (2) the mention-sequence family: 20 templates (6 of them with statements spanning lines) that place up to 4 mentions in every traversal context (assignment target and operands, subscripts, list tails, call name and arguments, function name and parameters, conditions and blocks, mutation operand / destination / parameter, consecutive statements) x every filling from {x, X, the x, y, pronoun, a call fun taking x, the variable fun, a call x taking x, thex (the letters of the x without the break), my x (another article)}; oracle: linting returns without panic in both builds, leaves the program (Debug rendering) untouched, equals the stable merge by line of the two passes run separately (pass order on ties), is identical for a second fresh linter, and the repeated-identifier diagnostics equal the reference mention rule computed by an independent field-order traversal (reported iff same spelling as the previous variable mention and not a callee name; callee names count as previous mentions; line of the mention); (3) lint histories: all ordered pairs (thorough: also triples over a subset) of 73 programs (incl. texts beginning with blank lines) linted one after the other on one fresh thread through cli::linter::lint and cli::linter::run — every result must equal what the program gives when linted alone; non-trivial = programs with at least two variable mentions / every history; distinct = distinct text",
+    rule: "(1) every program of the reference grammar's canonical corpus (all statement kinds in three contexts, operator chains, lists, calls), the hand-written corpus, and all degenerate-poetic / stray-control programs of C09, every constant-assignment form x target x right-hand side of C18, operator chains / lists / argument lists / subscript chains of 2..100 operands in 5 repeat patterns; (2) the mention-sequence family: 22 templates (6 of them with statements spanning lines) that place up to 4 mentions in every traversal context (assignment target and operands, subscripts, list tails, call name and arguments, function name and parameters, conditions and blocks, mutation operand / destination / parameter, consecutive statements) x every filling from {x, X, the x, y, pronoun, a call fun taking x, the variable fun, a call x taking x, thex (the letters of the x without the break), my x (another article)}; oracle: linting returns without panic in both builds, leaves the program (Debug rendering) untouched, equals the stable merge by line of the two passes run separately (pass order on ties), is identical for a second fresh linter, and the repeated-identifier diagnostics equal the reference mention rule computed by an independent field-order traversal (reported iff same spelling as the previous variable mention and not a callee name; callee names count as previous mentions; line of the mention); (3) lint histories: all ordered pairs (thorough: also triples over a subset) of 73 programs (incl. texts beginning with blank lines) linted one after the other on one fresh thread through cli::linter::lint and cli::linter::run — every result must equal what the program gives when linted alone; non-trivial = programs with at least two variable mentions / every history; distinct = distinct text",
     assumptions: &["'spells the same name' is exact spelling equality; sequences in which adjacent mentions differ only in letter case are skipped as unspecified", "a callee name counts as the previous mention for what follows and is never reported itself (the only reading under which the pinned tree satisfies the property); names used both as callee and as variable are included"],
     build,
     exhaustive: true,
@@ -34,6 +34,9 @@ pub const TEMPLATES: &[&str] = &[
     "A is 5\nB is a word\nC says hi\nwhile D\nsay 1\n\n",
     "put A into B\nput C into D\n",
     "roll A into B\nrock C like a word\ngive back D\n",
+    // an else after an empty then-block, a loop around it
+    "if A\nelse\nsay B\nsay C\n\nsay D\n",
+    "while A\nif B\nelse\nsay C\n\n\nsay D\n",
     // statements that span lines (a comment or a string with a line break inside): traversal order and line order differ
     "say A\nput B (c\nc) into C\nsay D\n",
     "put A plus B (c\nc) into C\nsay D\n",
